@@ -5,7 +5,7 @@ write_xlsx(path, sheets, defined_names=(), shared_strings=())
   sheets: [(name, {row_number: [cell, ...]})], cell = dict(
       r='A1', t=None|'n'|'s'|'str'|'inlineStr'|'b'|'e', v=<text of <v>>,
       f=<formula text without '='>, f_attrs=' t="shared" si="0" ref="A1:A3"',
-      s=<style index: 1 = date format>)
+      s=<style index: 1 = date, 2 = time of day h:mm, 3 = duration [h]:mm:ss>)
 """
 import zipfile
 from xml.sax.saxutils import escape
@@ -67,9 +67,12 @@ def write_xlsx(path, sheets, defined_names=(), shared_strings=(),
         '<borders count="1"><border><left/><right/><top/><bottom/><diagonal/>'
         '</border></borders><cellStyleXfs count="1"><xf numFmtId="0" '
         'fontId="0" fillId="0" borderId="0"/></cellStyleXfs><cellXfs '
-        'count="2"><xf numFmtId="0" fontId="0" fillId="0" borderId="0" '
+        'count="4"><xf numFmtId="0" fontId="0" fillId="0" borderId="0" '
         'xfId="0"/><xf numFmtId="14" fontId="0" fillId="0" borderId="0" '
-        'xfId="0" applyNumberFormat="1"/></cellXfs></styleSheet>')
+        'xfId="0" applyNumberFormat="1"/><xf numFmtId="20" fontId="0" '
+        'fillId="0" borderId="0" xfId="0" applyNumberFormat="1"/><xf '
+        'numFmtId="46" fontId="0" fillId="0" borderId="0" xfId="0" '
+        'applyNumberFormat="1"/></cellXfs></styleSheet>')
     sst = (f'{HDR}<sst xmlns="{NS}" count="{len(shared_strings)}" '
            f'uniqueCount="{len(shared_strings)}">' + ''.join(
                '<si><t xml:space="preserve">%s</t></si>' % escape(s)
